@@ -22,6 +22,7 @@ Proof.
   - destruct r as [|k|]; cbn; auto. destruct (self_ends k); cbn; auto.
     intros H E. specialize (H E). discriminate.
   - destruct f; cbn; auto.
+  - destruct f, r as [|k|]; cbn; auto; try discriminate; destruct (self_ends k); cbn; auto; discriminate.
 Qed.
 
 Lemma rinv_run h : forall s, rinv s -> rinv (fst (rpc_run s h)).
@@ -85,6 +86,21 @@ Proof.
     + destruct (rpc_run (mkR false RunNone) h) as [s2 rs] eqn:R. cbn.
       replace rs with (snd (rpc_run (mkR false RunNone) h)) by (rewrite R; reflexivity).
       apply IH; [reflexivity | discriminate].
+  - (* a request *)
+    assert (D : exists s1 r, rpc_step s RReq = (s1, Some r) /\
+                  ((r = ROk /\ s1 = s) \/ (r = RErr /\ r_flag s1 = false))).
+    { cbn. destruct (negb (r_flag s)) eqn:E.
+      - exists s, RErr. split; [reflexivity|]. right. split; [reflexivity | apply negb_true_iff in E; exact E].
+      - destruct (r_run s) as [|k|]; [exists (mkR false RunNone), RErr; split; [reflexivity | right; split; reflexivity]
+                                     | | exists (mkR false RunNone), RErr; split; [reflexivity | right; split; reflexivity]].
+        destruct (self_ends k); [exists (mkR false RunNone), RErr; split; [reflexivity | right; split; reflexivity]
+                                | exists s, ROk; split; [reflexivity | left; split; reflexivity]]. }
+    destruct D as (s1 & r & Hstep & Hr). cbn [rpc_step] in Hstep. rewrite Hstep.
+    destruct (rpc_run s1 h) as [s2 rs] eqn:R. cbn.
+    replace rs with (snd (rpc_run s1 h)) by (rewrite R; reflexivity).
+    destruct Hr as [[-> ->] | [-> F]].
+    + apply IH; assumption.
+    + apply IH; [intros _; exact F | discriminate].
 Qed.
 
 Lemma last_call_stop_flag h : forall s acc,
@@ -96,7 +112,7 @@ Proof.
   induction h as [|o h IH]; intros s acc HI Hacc HL; cbn in *.
   - split; [auto | apply HI; auto].
   - pose proof (rinv_step s o HI) as HI1.
-    destruct o; cbn in *.
+    destruct o; [cbn in * | cbn in * | cbn in * | ].
     + destruct (r_flag s) eqn:E; cbn in *.
       * specialize (IH s (Some (RStart k)) HI). destruct (rpc_run s h) as [s2 rs]. cbn in *. apply IH; [discriminate | assumption].
       * specialize (IH (mkR true (RunLive k)) (Some (RStart k)) HI1).
@@ -111,6 +127,11 @@ Proof.
         apply IH; [intros _; apply negb_true_iff in E; exact E | assumption].
       * specialize (IH (mkR false RunNone) (Some RStop) HI1).
         destruct (rpc_run (mkR false RunNone) h) as [s2 rs]. cbn in *. apply IH; [reflexivity | assumption].
+    + (* a request *)
+      cbn [last_call] in HL. cbn [rpc_run]. clear HI1. pose proof (rinv_step s RReq HI) as HI1.
+      destruct (rpc_step s RReq) as [s1 r] eqn:Hstep. cbn [fst] in HI1.
+      specialize (IH s1 (Some RReq) HI1). destruct (rpc_run s1 h) as [s2 rs]. cbn in *.
+      apply IH; [discriminate | assumption].
 Qed.
 
 Definition is_live (s : rstate) : bool := match r_run s with RunLive _ => true | _ => false end.
@@ -120,7 +141,7 @@ Lemma rpc_model_passes_checker h :
 Proof.
   unfold C10_rpc_check. cbn [ro_crashed ro_ops ro_classes ro_flag ro_active negb andb].
   rewrite walk_ok; [| discriminate | discriminate]. cbn [andb].
-  unfold ends_with_stop. destruct (last_call h None) as [[k| |]|] eqn:L; try reflexivity.
+  unfold ends_with_stop. destruct (last_call h None) as [[k| | |]|] eqn:L; try reflexivity.
   destruct (last_call_stop_flag h rpc_init None rinv_init ltac:(discriminate) L) as [F R].
   unfold is_live. rewrite F, R. reflexivity.
 Qed.
